@@ -5,12 +5,18 @@ HERE = os.path.dirname(os.path.abspath(__file__))
 props = [json.loads(l) for l in open(os.path.join(HERE, 'properties.jsonl'))]
 
 MC = 'model_checking'
+TECH_A = 'symbolic execution of torchtree tensor code (SymTensor) + SMT (z3/cvc5, QF_UFNRA)'
 CLAIMED = {
+ 'C01': dict(level=MC, ref='DESIGN.md §4 C01',
+   text='The real pruning kernels and TreeLikelihoodModel._call are executed symbolically for every enumerated topology / model shape; "log-likelihood == brute-force sum over all ancestral-state x rate-category assignments" becomes a polynomial identity that the SMT solver decides for ALL values of matrices, frequencies, proportions, weights, tip vectors, branch lengths, heights, clock and site rates. Bounded by topology size / states / categories, hence model checking of the enumerated configuration space, not a proof.',
+   note='Reals not floats (the 1e-9 tolerance is outside the claim); K2 uses an uninterpreted row-stochastic P(t) in place of substitution_model.p_t (real p_t is C04, site rates C05); n<=4 quick / n<=5 thorough; S<=4; K<=2; one 4-column IUPAC alignment per n; datatype tables run concretely.',
+   technique=TECH_A + '; polynomial identity per site pattern, lemma chaining for the log assembly'),
  'C08': dict(level=MC, ref='DESIGN.md §4 C08',
    text='Bounded symbolic execution of the real coalescent log_prob code (SymTensor engine): every interleaving of sampling, coalescent and grid events is a path region; regions are enumerated with blocking clauses until the SMT solver certifies that they cover the whole input domain, and on every region "implementation == independent Kingman event-list oracle" is proved for all real heights / population sizes / growth rates / grid points. Bounded (n<=3 quick, n<=4 thorough), so model checking of the path-region space rather than a proof.',
    note='Reals not floats; log/exp uninterpreted with ground axiom instances; torch.distributions validation off (domain constraints instead); n and grid size bounded as stated in the evidence; soft (temperature) skygrid outside the claim.',
    technique='symbolic execution of torchtree tensor code (SymTensor) + SMT (z3/cvc5, QF_UFNRA) with solver-certified path-region coverage'),
 }
+NA_TABLE = {}
 NA_REASON = 'check not built yet in this round (planned in DESIGN.md §4); not claimed until its check exists'
 checks = []
 na = []
@@ -30,7 +36,7 @@ for p in props:
           'technique': c['technique'],
         })
     else:
-        na.append({'property_id': pid, 'reason': NA.get(pid, NA_REASON) if (NA:=globals().get('NA_TABLE', {})) is not None else NA_REASON})
+        na.append({'property_id': pid, 'reason': NA_TABLE.get(pid, NA_REASON)})
 m = {
  'version': 1,
  'setup_cmd': './setup.sh',
